@@ -411,8 +411,16 @@ func (c epCfg) line(inp []byte, acts []string) string {
 		joinOr(c.decoys, ","), hx(inp), joinOr(acts, ";"))
 }
 
-func (c epCfg) written(inp []byte, acts []string) []byte {
-	_, w := runEp(c.role, c.magic, c.pre, c.seed, c.gLen, c.decoys, inp, acts)
+// written runs the real endpoint to record what it writes. A panic of the code
+// under test must not kill the generator: the case is still emitted (with
+// whatever was recorded) and Exec will report the panic against the model.
+func (c epCfg) written(inp []byte, acts []string) (w []byte) {
+	defer func() {
+		if r := recover(); r != nil {
+			w = nil
+		}
+	}()
+	_, w = runEp(c.role, c.magic, c.pre, c.seed, c.gLen, c.decoys, inp, acts)
 	return w
 }
 
@@ -547,7 +555,7 @@ func genEp(g *core.Gen) {
 		v1 := append(unhx(fmt.Sprintf("%08s", c.magic)), []byte("version\x00\x00\x00\x00\x00")...)
 		v1[0], v1[1], v1[2], v1[3] = v1[3], v1[2], v1[1], v1[0]
 		kase(g, "ep-admission-v1", true, withFlags(c.line(append(v1, r.Bytes(30)...), nil), "A"+fmt.Sprint(1+r.Intn(4))))
-		kase(g, "ep-admission-short", true, withFlags(c.line(s.wa[:20+r.Intn(40)], nil), "A"+fmt.Sprint(2+r.Intn(3))))
+		kase(g, "ep-admission-short", true, withFlags(c.line(take(s.wa, 20+r.Intn(40)), nil), "A"+fmt.Sprint(2+r.Intn(3))))
 		c.gLen = 4096
 		kase(g, "ep-admission-garbage-too-large", true, withFlags(c.line(s.wa, nil), "A4"))
 	}
